@@ -135,6 +135,14 @@ def getattr_(ex, o, name):
             ex.raise_(AttributeError, name)
         return bind_class_attr(ex, o.selfv, owner, raw, name, type_of_recv(ex, o.selfv))
     if isinstance(o, ElemRef):
+        mo = ex.obj(o.mref)
+        if name not in mo.cols and mo.elem_cls is not None:
+            # not a modelled field: class attribute override of the model, then the real class (methods, properties)
+            if mo.elem_model is not None and name in mo.elem_model.cls_attrs:
+                return mo.elem_model.cls_attrs[name](ex)
+            owner, raw = class_lookup(mo.elem_cls, name)
+            if owner is not None:
+                return bind_class_attr(ex, o, owner, raw, name, mo.elem_cls)
         return M.elem_get(ex, o, name)
     if isinstance(o, M.EventView):
         ev = o
@@ -170,7 +178,8 @@ def getattr_(ex, o, name):
                 from . import contracts as _C
 
                 if isinstance(m_, _C.Callback):
-                    return ex.cfg.fresh(ex, m_, name)
+                    cbv = ex.cfg.fresh(ex, m_, name)
+                    return Bound(cbv, o) if getattr(m_, 'with_self', False) else cbv
                 return Bound(m_, o)
             if name == '__class__':
                 return ho.cls
@@ -193,6 +202,8 @@ def getattr_(ex, o, name):
             if ho.model is not None and name in ho.model.fields:
                 raise Unsupported(f'field {name} of {ho.cls.__name__ if ho.cls else "?"} read before initialisation')
             ex.raise_(AttributeError, name)
+        if name == 'maxlen' and isinstance(ho, LObj) and ho.flavor == 'deque':
+            return ho.maxlen
         return Bound(name, o)
     if isinstance(o, Sym):
         from .values import ext_kind
@@ -480,6 +491,8 @@ def bytes_method(ex, recv, name, args, kwargs):
                 return recv.decode(*args, **kwargs)
             except Exception as e:
                 raise PyExc(e)
+        if DECODE_MODEL is not None:
+            return DECODE_MODEL(ex, recv, args, kwargs)  # (an extension models decoded text, see ext_c18.Utf8Str)
         return OpaqueStr()
     if name == 'join':
         items = ex.concrete_iter(args[0])
@@ -538,6 +551,9 @@ def bytes_method(ex, recv, name, args, kwargs):
     raise Unsupported(f'bytes.{name}')
 
 
+DECODE_MODEL = None
+
+
 def int_method(ex, recv, name, args, kwargs):
     if name == 'to_bytes':
         return int_to_bytes(ex, recv, *args, **kwargs)
@@ -586,6 +602,17 @@ def list_method(ex, ref, ho, name, args, kwargs):
             return ex.alloc(LObj(out, flavor='set'))
         raise Unsupported(f'set.{name} on a set with symbolic members')
     if name == 'append':
+        if ho.maxlen is not None:
+            # collections.deque(maxlen=n).append on a full deque discards the item at the left end
+            if ho.maxlen == 0:
+                return None
+            if ho.items is not None:
+                if len(ho.items) >= ho.maxlen:
+                    del w().items[0]
+            elif ex.branch(mk_bool(z3.Length(ho.sym.t) >= ho.maxlen)):
+                s_ = ho.sym.t
+                w().sym = Sym(z3.simplify(z3.Extract(s_, 1, z3.Length(s_) - 1)), ho.sym.k)
+                ho = ex.obj(ref)
         if ho.items is not None:
             w().items.append(args[0])
         else:
@@ -667,6 +694,20 @@ def list_method(ex, ref, ho, name, args, kwargs):
         return None
     if name == 'reverse' and ho.items is not None:
         w().items.reverse()
+        return None
+    if name == 'sort' and ho.items is not None and len(ho.items) <= 4 and not args and set(kwargs) <= {'key'}:
+        # short concrete spine, symbolic keys: stable insertion sort (the result CPython's stable sort gives), one
+        # case split per comparison; the key function is called once per element, in list order, as CPython does
+        keyf = kwargs.get('key')
+        items = list(ho.items)
+        keys = [ex.call(keyf, [ex.wrap(x, ref)], {}) if keyf is not None else ex.wrap(x, ref) for x in items]
+        order = list(range(len(items)))
+        for i in range(1, len(order)):
+            j = i
+            while j > 0 and ex.branch(ex.truth(ex.compare_op(ast.Lt(), keys[order[j]], keys[order[j - 1]]))):
+                order[j], order[j - 1] = order[j - 1], order[j]
+                j -= 1
+        w().items[:] = [items[k] for k in order]
         return None
     raise Unsupported(f'list.{name}')
 
@@ -1223,6 +1264,12 @@ def m_bytes(ex, *args):
         if not ex.spec_mode and not ex.branch(mk_bool(v.t >= 0)):
             ex.raise_(ValueError, 'negative count')
         return M.bytes_repeat(ex, b'\0', v)
+    if isinstance(v, ElemRef):
+        owner, raw = class_lookup(ex.obj(v.mref).elem_cls, '__bytes__')
+        if isinstance(raw, types.FunctionType):
+            r = ex.call(ex.func_of_native(raw), [v], {})
+            return ex.as_bytes_value(r) if M.is_byteslike(ex, r) else r
+        raise PyExc(TypeError('cannot convert to bytes'))
     if isinstance(v, Ref):
         ho = ex.obj(v)
         if isinstance(ho, Obj):
@@ -1408,6 +1455,8 @@ def m_set(ex, *args):
 
 def m_enumerate(ex, it, start=0):
     items = ex.concrete_iter(it)
+    if items is None and ex.skeleton and isinstance(it, Unknown):
+        return Unknown('enumerate')
     if items is None:
         raise Unsupported('enumerate over symbolic iterable')
     return ConcIter([(start + i, x) for i, x in enumerate(items)])
@@ -1415,6 +1464,8 @@ def m_enumerate(ex, it, start=0):
 
 def m_zip(ex, *its, **kw):
     lists = [ex.concrete_iter(i) for i in its]
+    if ex.skeleton and any(isinstance(i, Unknown) for i in its):
+        return Unknown('zip')
     if any(l is None for l in lists):
         if kw:
             raise Unsupported('zip(strict=) over symbolic iterable')
@@ -1596,10 +1647,12 @@ CLASS_MODELS[map] = m_map
 
 
 def m_deque(ex, *args, **kw):
-    if kw.get('maxlen') is not None:
-        raise Unsupported('deque(maxlen)')
+    maxlen = M.plain(kw.get('maxlen'))
+    if maxlen is not None and (not isinstance(maxlen, int) or args):
+        raise Unsupported('deque(iterable, maxlen) / symbolic maxlen')
     r = m_list(ex, *args)
     ex.wobj(r).flavor = 'deque'
+    ex.wobj(r).maxlen = maxlen
     return r
 
 
